@@ -12,8 +12,7 @@
  *           at the end of the script: EOF on descriptor 0, then every remaining child exits with status 0, lowest slot first
  *   trace : ','-separated: o<path-hex> open_read(path) | f<ss>:<sender-hex>:<recip-hex>:<at> spawn() called and child forked
  *           | W<hex> bytes written to descriptor 1 (adjacent writes merged) | e<code>
- *           | V (rspawn only; ends the trace, pending output dropped): report() was about to read beyond the end of the
- *             child's output (its second substdio_puts has no bound); the harness stops the case there */
+ *           (a trace that does not end in e<code> means the program was aborted by a sanitizer while running this case) */
 #include "hcommon.h"
 #include "substdio.h"
 #include <errno.h>
@@ -179,36 +178,23 @@ static int h_select(int n, fd_set *r, fd_set *w, fd_set *x, struct timeval *t) {
   return 1;
 }
 
-#ifdef RSPAWN
-/* would qmail-rspawn.c report() run past the end of the child's output?  (its second substdio_puts has no bound) */
-static int rs_overread(const unsigned char *s, int len, int wstat) {
-  if (wstat & 127) return 0;
-  if ((wstat >> 8) != 0) return 0;
-  if (!len) return 0;
-  int result = -1, j = 0, k;
-  for (k = 0; k < len; ++k) if (!s[k]) {
-    if (s[j] == 'K') { result = 1; break; }
-    if (s[j] == 'Z') { result = 0; break; }
-    if (s[j] == 'D') break;
-    j = k + 1;
-  }
-  int orr = result; if (s[0] == 's') orr = 0; if (s[0] == 'h') orr = -1;
-  for (k = 1; k < len;) if (!s[k++]) {
-    if (result <= orr && k < len && (s[k] == 'Z' || s[k] == 'D' || s[k] == 'K')) {
-      for (int q = k + 1; q < len; q++) if (!s[q]) return 0;
-      return 1;
-    }
-    return 0;
-  }
-  return 0;
-}
+/* report() gets the child's output as (s,len) and must stay inside it: the rest of the stralloc's allocation is
+ * poisoned for the duration of the call, so that any read beyond len — not only beyond the allocation — aborts under ASan
+ * (the death callback flushes the case line; the driver reports the truncated trace as an ORACLE failure with the input) */
+#if defined(__SANITIZE_ADDRESS__)
+void __asan_poison_memory_region(void const volatile *addr, size_t size);
+void __asan_unpoison_memory_region(void const volatile *addr, size_t size);
 #endif
-static int overread_seen;
 static void h_report(substdio *ss, int wstat, char *s, int len) {
-#ifdef RSPAWN
-  if (getenv("C18_ALLOW_OVERREAD") == 0 && rs_overread((unsigned char *)s, len, wstat)) { overread_seen = 1; h_exit(99); }
+#if defined(__SANITIZE_ADDRESS__)
+  unsigned int a = 0;
+  for (int i = 0; i < auto_spawn; i++) if (d[i].used && d[i].output.s == s) a = d[i].output.a;
+  if (s && a > (unsigned)len) __asan_poison_memory_region(s + len, a - len);
 #endif
   report(ss, wstat, s, len);
+#if defined(__SANITIZE_ADDRESS__)
+  if (s && a > (unsigned)len) __asan_unpoison_memory_region(s + len, a - len);
+#endif
 }
 
 static void one(const char *script, const unsigned char *plan, size_t pn) {
@@ -222,9 +208,7 @@ static void one(const char *script, const unsigned char *plan, size_t pn) {
   int rc;
   if (setjmp(h_jb) == 0) { rc = spawn_main(2, av); } else rc = h_exitcode;
   h_exit_armed = 0;
-  if (overread_seen) { wbuf.n = 0; ev_begin('V'); fputc('\n', h_out); }
-  else { ev_flush(); if (!first_ev) fputc(',', h_out); fprintf(h_out, "e%d\n", rc); }
-  overread_seen = 0;
+  ev_flush(); if (!first_ev) fputc(',', h_out); fprintf(h_out, "e%d\n", rc);
   if (d) { for (int i = 0; i < auto_spawn; i++) if (d[i].output.s) { free(d[i].output.s); d[i].output.s = 0; } free(d); d = 0; }
 }
 
@@ -253,8 +237,17 @@ static const char *messids[] = { "0/1", "22/45", "1/1234567", "7", "5/", "3//4",
                                  "", "12/\377", "0/18446744073709551617", "-1", "+1", "1\n" };
 #define NEL(a) (sizeof a / sizeof a[0])
 
+/* flush the protocol stream if a sanitizer aborts the process, so that the case being run is identified */
+#if defined(__SANITIZE_ADDRESS__)
+void __asan_set_death_callback(void (*cb)(void));
+static void h_death(void) { if (h_out) fflush(h_out); }
+#endif
+
 int main(int argc, char **argv) {
   h_init_out();
+#if defined(__SANITIZE_ADDRESS__)
+  __asan_set_death_callback(h_death);
+#endif
   if (argc > 1 && !strcmp(argv[1], "-")) {
     static char line[800000], sc[800000], pl[4000], tag[16], kind[16]; static unsigned char pb[2000];
     while (fgets(line, sizeof line, stdin)) {
